@@ -2,6 +2,7 @@ package main
 
 import (
 	"fmt"
+	"time"
 
 	pt "github.com/weedbox/pokertable"
 )
@@ -20,6 +21,11 @@ func (e *recEngine) note(id, kind string, amt int64, fn func() error) error {
 		key = t.State.GameState.UpdatedAt
 	}
 	err := fn()
+	if e.d.sc.Seed%3 == 0 {
+		// the reply takes a moment to travel back: the bot's handler is still busy when the engine publishes the next state
+		// (which must then wait for it, not be dropped)
+		time.Sleep(2 * time.Millisecond)
+	}
 	a := mkArgs()
 	a.ID, a.Kind, a.Amt, a.Note = id, kind, amt, fmt.Sprintf("%d", key)
 	e.d.rec.Emit("botcall", a, errNameT(err), e.d.te, nil, nil, false)
